@@ -184,4 +184,67 @@ theorem connectLoop_spec (sensor : Node) (os : List Node) (g g' : Genome W) (reg
               · exact .inl ⟨y, hy, hys, hyd⟩
             · exact .inr (by simp [hin])
 
+/-! ### speciation only files the organisms it is given -/
+
+theorem mem_modify_cases {α} (l : List α) (i : Nat) (f : α → α) (a : α) (h : a ∈ l.modify i f) :
+    a ∈ l ∨ ∃ b ∈ l, a = f b := by
+  induction l generalizing i with
+  | nil => simp at h
+  | cons x xs ih =>
+    cases i with
+    | zero =>
+      simp only [List.modify_zero_cons, List.mem_cons] at h
+      rcases h with rfl | h
+      · exact .inr ⟨x, List.mem_cons_self, rfl⟩
+      · exact .inl (List.mem_cons_of_mem _ h)
+    | succ i =>
+      simp only [List.modify_succ_cons, List.mem_cons] at h
+      rcases h with rfl | h
+      · exact .inl List.mem_cons_self
+      · rcases ih i h with h | ⟨b, hb, e⟩
+        · exact .inl (List.mem_cons_of_mem _ h)
+        · exact .inr ⟨b, List.mem_cons_of_mem _ hb, e⟩
+
+theorem speciateOne_members (o : EpochOpts W) (p p' : Pop W) (org : Org W) (h : speciateOne o p org = .ok p') :
+    ∀ s' ∈ p'.species, ∀ x ∈ s'.orgs, x = org ∨ ∃ s ∈ p.species, x ∈ s.orgs := by
+  have hnew : ∀ sp : Species W, sp.orgs = [org] →
+      ∀ s' ∈ p.species ++ [sp], ∀ x ∈ s'.orgs, x = org ∨ ∃ s ∈ p.species, x ∈ s.orgs := by
+    intro sp hsp s' hs' x hx
+    rcases List.mem_append.mp hs' with hs' | hs'
+    · exact .inr ⟨s', hs', hx⟩
+    · simp only [List.mem_singleton] at hs'; subst hs'
+      rw [hsp] at hx
+      exact .inl (by simpa using hx)
+  unfold speciateOne at h
+  simp only at h
+  split at h
+  · cases h; exact hnew _ rfl
+  · split at h
+    · cases h
+    · split at h
+      · cases h
+        intro s' hs' x hx
+        rcases mem_modify_cases _ _ _ _ hs' with hs' | ⟨b, hb, rfl⟩
+        · exact .inr ⟨s', hs', hx⟩
+        · rcases List.mem_append.mp hx with hx | hx
+          · exact .inr ⟨b, hb, hx⟩
+          · exact .inl (by simpa using hx)
+      · cases h; exact hnew _ rfl
+
+theorem speciateLoop_members (o : EpochOpts W) (p p' : Pop W) (orgs : List (Org W)) (h : speciateLoop o p orgs = .ok p') :
+    ∀ s' ∈ p'.species, ∀ x ∈ s'.orgs, x ∈ orgs ∨ ∃ s ∈ p.species, x ∈ s.orgs := by
+  induction orgs generalizing p with
+  | nil => simp only [speciateLoop, Except.ok.injEq] at h; subst h; exact fun s' hs' x hx => .inr ⟨s', hs', hx⟩
+  | cons a as ih =>
+    unfold speciateLoop at h
+    split at h
+    · cases h
+    · rename_i p1 h1
+      intro s' hs' x hx
+      rcases ih p1 h s' hs' x hx with hx | ⟨s, hs, hx⟩
+      · exact .inl (List.mem_cons_of_mem _ hx)
+      · rcases speciateOne_members o p p1 a h1 s hs x hx with rfl | hold
+        · exact .inl List.mem_cons_self
+        · exact .inr hold
+
 end GoNeat.MutateLemmas
